@@ -132,7 +132,7 @@ func classifyRes(err error) string {
 type ChildSpec struct {
 	Name   int    `json:"name"`
 	Style  string `json:"style"`  // "N" NonBlocking | "U" UntilRunDone
-	Exit   string `json:"exit"`   // "S" OnSignal | "F" Free | "E" Free: returns the error L7 when stopped
+	Exit   string `json:"exit"`   // "S" OnSignal | "F" Free | "E" Free: returns the error L7 when stopped | "X" Free: L7 when stopped, L8 when its context is cancelled
 	RK     string `json:"rk"`     // "W" ReloadWithConfig | "P" Reload | "-" neither
 	Nested bool   `json:"nested"` // a real composite.Runner (UntilRunDone, OnSignal, Reload)
 }
@@ -155,6 +155,13 @@ type mock struct {
 	active  int
 	gen     int // number of cycle resets (mirrors lifecycle.StartStop after /repo b0569e6)
 	release chan relMsg
+
+	// a director-controlled hold inside ReloadWithConfig / Reload (a slow reload of a child is
+	// legitimate environment behaviour): armed by op "hold", left by op "unhold"
+	holdMu  sync.Mutex
+	hold    chan struct{} // non-nil: the next reload call blocks until it is closed
+	holding chan struct{} // closed when a reload call has entered the hold
+	entered bool
 }
 
 func newMock(id int, spec ChildSpec, rec *director.Recorder) *mock {
@@ -186,7 +193,7 @@ func (m *mock) Run(ctx context.Context) error {
 	es := "nil"
 	select {
 	case <-sigch:
-		if m.spec.Exit == "E" {
+		if m.spec.Exit == "E" || m.spec.Exit == "X" {
 			// e.g. a server that reports a shutdown timeout when it is stopped
 			err = sentinels[7]
 			es = "L7"
@@ -196,6 +203,11 @@ func (m *mock) Run(ctx context.Context) error {
 		es = "C"
 		if errors.Is(err, context.DeadlineExceeded) {
 			es = "D"
+		}
+		if m.spec.Exit == "X" {
+			// a child that reports a real error of its own when its context is cancelled
+			err = sentinels[8]
+			es = "L8"
 		}
 	case msg := <-m.release:
 		es = msg.err
@@ -226,16 +238,76 @@ func (m *mock) Stop() {
 	m.mu.Unlock()
 }
 
+// armHold makes the next ReloadWithConfig / Reload call of this child block (after it has been
+// logged) until unhold.
+func (m *mock) armHold() {
+	m.holdMu.Lock()
+	m.hold = make(chan struct{})
+	m.holding = make(chan struct{})
+	m.entered = false
+	m.holdMu.Unlock()
+}
+
+func (m *mock) unhold() {
+	m.holdMu.Lock()
+	if m.hold != nil {
+		close(m.hold)
+		m.hold = nil
+	}
+	m.holdMu.Unlock()
+}
+
+// waitHolding waits until a reload call is inside the hold.
+func (m *mock) waitHolding(d time.Duration) bool {
+	m.holdMu.Lock()
+	h := m.holding
+	m.holdMu.Unlock()
+	if h == nil {
+		return false
+	}
+	select {
+	case <-h:
+		return true
+	case <-time.After(d):
+		return false
+	}
+}
+
+func (m *mock) inReload() {
+	m.holdMu.Lock()
+	h, hg := m.hold, m.holding
+	first := h != nil && !m.entered
+	if first {
+		m.entered = true
+	}
+	m.holdMu.Unlock()
+	if first {
+		close(hg)
+		<-h
+	}
+}
+
+// isActive reports whether a Run of this child is in progress.
+func (m *mock) isActive() bool {
+	m.mu.Lock()
+	defer m.mu.Unlock()
+	return m.active > 0
+}
+
 type mockRWC struct{ *mock }
 
 func (m mockRWC) ReloadWithConfig(cfg any) {
 	v, _ := cfg.(int)
 	m.rec.Emit("ReloadCfg %d %d", m.id, v)
+	m.inReload()
 }
 
 type mockPlain struct{ *mock }
 
-func (m mockPlain) Reload(context.Context) { m.rec.Emit("ReloadPlain %d", m.id) }
+func (m mockPlain) Reload(context.Context) {
+	m.rec.Emit("ReloadPlain %d", m.id)
+	m.inReload()
+}
 
 // nested wraps a real composite.Runner (with one quiet inner child) as a child.
 type quiet struct {
